@@ -23,7 +23,7 @@ m = dict(version=1, setup_cmd='./setup.sh',
                     baseline_off_cmd=src['baseline_cmd'], source_commits=src.get('hook_commits', []), add_only=True),
          engines=[dict(name='coq-models', path='coq/', serves_properties=[c['property_id'] for c in checks], kind_free_text='hand-written Gallina models, theorems (Coq 8.16.1), one Props/Cxx.v per property'),
                   dict(name='extracted-driver', path='ocaml/', serves_properties=[c['property_id'] for c in checks], kind_free_text='models extracted to OCaml (ExtrOcamlBasic only) behind a generic s-expression driver'),
-                  dict(name='source-translator', path='harness/translate/', serves_properties=[p for p in ['C01', 'C02', 'C03', 'C05', 'C06', 'C08', 'C09', 'C11', 'C12', 'C13', 'C15', 'C16', 'C17', 'C18', 'C19', 'C20'] if p in [c['property_id'] for c in checks]], kind_free_text='fail-closed Python->Gallina translator (py2gallina*.py) regenerating coq/Gen/*.v from the working tree of /repo at every setup/check; generated definitions are proved equal to the hand-written models (Proofs/Gen*Eq.v, Props/Cxx.v C*_gen_* and Props/Cxxgen.v)'),
+                  dict(name='source-translator', path='harness/translate/', serves_properties=[p for p in ['C01', 'C02', 'C03', 'C05', 'C06', 'C07', 'C08', 'C09', 'C10', 'C11', 'C12', 'C13', 'C14', 'C15', 'C16', 'C17', 'C18', 'C19', 'C20'] if p in [c['property_id'] for c in checks]], kind_free_text='fail-closed Python->Gallina translator (py2gallina*.py) regenerating coq/Gen/*.v from the working tree of /repo at every setup/check; generated definitions are proved equal to the hand-written models (Proofs/Gen*Eq.v, Props/Cxx.v C*_gen_* and Props/Cxxgen.v)'),
                   dict(name='harness', path='harness/', serves_properties=[c['property_id'] for c in checks], kind_free_text='Python correspondence harness: generators, implementation runners, oracles, evidence, known findings')],
          checks=checks, not_applicable=na, notes=src.get('notes', ''))
 json.dump(m, open(os.path.join(R, 'MANIFEST.json'), 'w'), indent=1)
